@@ -440,6 +440,29 @@ def r7_split_shares(idx, r):
         r.require(bool(share), "adjustResolution:share-is-a-height-ratio", f, node=scaled[0].stmt, msg="the share given to a piece is its height over the height of the block being split")
 
 
+def r8_overlap_heights_used(idx, r):
+    """getBlocksBetweenElevations answers (block, height of the block INSIDE the window).  A caller that accumulates a volume or another
+    height-proportional quantity over that answer must use the overlap height: ignoring it counts the whole block (or the whole window) for
+    every block that merely touches the window."""
+    n = 0
+    for m in idx.modules.values():
+        if not m.name.startswith("armi.") or ".tests" in m.name:
+            continue
+        for f in m.all_funcs():
+            for lp in [x for x in walk_local(f.node) if isinstance(x, ast.For) and isinstance(x.iter, ast.Call) and call_attr(x.iter) == "getBlocksBetweenElevations"]:
+                if not (isinstance(lp.target, ast.Tuple) and len(lp.target.elts) == 2 and isinstance(lp.target.elts[1], ast.Name)):
+                    continue
+                n += 1
+                hv = lp.target.elts[1].id
+                used = any(isinstance(x, ast.Name) and x.id == hv and isinstance(x.ctx, ast.Load) for st_ in lp.body for x in ast.walk(st_))
+                accum = any(isinstance(x, ast.AugAssign) for st_ in lp.body for x in ast.walk(st_))
+                r.require(used or not accum, f"{f.qualname}:overlap-height-used", f, node=lp,
+                          msg=f"the loop over getBlocksBetweenElevations accumulates a quantity but never uses the overlap height `{hv}`: blocks that only partly lie inside the axial window are "
+                              "counted in full, so the ring volume (and every density homogenised over it) is wrong whenever block boundaries do not coincide with the window")
+    if n < 1:
+        raise AnalysisError(f"only {n} loops over getBlocksBetweenElevations found")
+
+
 def run(idx, chk):
     chk.explanation = (
         "C11: the two overlap-mapping functions are typed with role generators for overlap / destination / source heights: densities scale by "
@@ -463,3 +486,5 @@ def run(idx, chk):
                  necessary="re-meshing conserves the atoms of every nuclide and keeps the outermost material boundaries")
     chk.run_rule("R11.7", "pieces of a split block carry their height share of the volume-integrated parameters", lambda r: r7_split_shares(idx, r), floor=2,
                  necessary="volume-integrated totals are conserved by re-meshing")
+    chk.run_rule("R11.8", "every accumulation over getBlocksBetweenElevations uses the overlap height it returns", lambda r: r8_overlap_heights_used(idx, r), floor=1,
+                 necessary="volumes and atoms are apportioned by the overlap of source and destination intervals")
